@@ -251,9 +251,26 @@ func checkOutcome(o *corr.Out, rq request, out outcome) {
 		rec.Header().Get("Content-Type") == "application/json"
 	if !okJ || msg != jsonRoundTrip(h.ret.Error()) {
 		o.Oracle("twirp-error-body", in, "error body is not {code,msg} with the handler's text: "+digest(body))
-	} else {
-		o.OracleOK("twirp-error-body")
+		return
 	}
+	o.OracleOK("twirp-error-body")
+	want, inSpec := twirpSpecStatus[code]
+	if !inSpec {
+		want = 500
+	}
+	if rec.Code != want {
+		o.Oracle("twirp-status-from-spec", in, fmt.Sprintf("code %q answered with status %d, the Twirp spec says %d", code, rec.Code, want))
+	} else {
+		o.OracleOK("twirp-status-from-spec")
+	}
+}
+
+// twirpSpecStatus is the error-code table of the Twirp wire protocol specification (v7).
+var twirpSpecStatus = map[string]int{
+	"canceled": 408, "unknown": 500, "invalid_argument": 400, "malformed": 400, "deadline_exceeded": 408,
+	"not_found": 404, "bad_route": 404, "already_exists": 409, "permission_denied": 403, "unauthenticated": 401,
+	"resource_exhausted": 429, "failed_precondition": 412, "aborted": 409, "out_of_range": 400, "unimplemented": 501,
+	"internal": 500, "unavailable": 503, "dataloss": 500,
 }
 
 // ---- percent decoding: independent reference = net/url.PathUnescape (RFC 3986, no '+' handling)
